@@ -78,3 +78,16 @@ func (f *FakeTicker) Stopped() bool     { return false }
 func (f *FakeTicker) Fire() bool        { return false }
 func (f *FakeTicker) FireWait(int) bool { return false }
 func (f *FakeTicker) Pending() bool     { return false }
+
+type ParkToken struct {
+	Step int64
+	Kind Kind
+}
+
+func (t *ParkToken) Resume()          {}
+func (t *ParkToken) Spinning() bool   { return false }
+func SetTokenMode(on bool)            {}
+func ParkedTokens() <-chan *ParkToken { return nil }
+func ArmSpinNotify()                  {}
+func DisarmSpinNotify()               {}
+func SpinNotified() <-chan struct{}   { return nil }
